@@ -39,7 +39,7 @@ def _execute(record, root):
     chain = []
     for k, e in enumerate(out):
         c = e["op"]["cfg"]
-        tag = f"solve {k} batch={names} {record['method']} conv={c['conv']} sp2={c['sp2']} eps={c['eps']} uhf={c['uhf']} backward={c.get('backward', 0)} forces={c.get('grad', 'autodiff')} start={e['start']}({e.get('from')})"
+        tag = f"solve {k} batch={names} {record['method']} conv={c['conv']} sp2={c['sp2']} eps={c['eps']} uhf={c['uhf']} backward={c.get('backward', 0)} forces={c.get('grad', 'autodiff')} excited_states_tol={c.get('exc')} start={e['start']}({e.get('from')})"
         stats["solves_seen"] = stats.get("solves_seen", 0) + 1
         if e.get("exc"):
             stats["probes"]["solves_that_raised"] = stats["probes"].get("solves_that_raised", 0) + 1
